@@ -135,6 +135,18 @@ theorem src_timestamp_json_form (d : DT) (h : d.off.getD 0 % 1000000 = 0) :
     · right; left; rw [if_pos h1]; exact ⟨u / 1000, rfl, by omega⟩
     · right; right; rw [if_neg h1]; exact ⟨u, rfl, hlt⟩
 
+/-- **UTC normalisation of aware datetimes, of the source as written**: two datetimes that denote the
+    same instant — in whatever time zones with whole-second offsets, or naive (read as UTC) — get the
+    SAME text, the one of the UTC reading -/
+theorem src_timestamp_json_same_instant (d1 d2 : DT) (h1 : d1.off.getD 0 % 1000000 = 0)
+    (h2 : d2.off.getD 0 % 1000000 = 0) (hi : d1.instant = d2.instant) :
+    Src.timestamp_to_json d1 = Src.timestamp_to_json d2
+    ∧ Src.timestamp_to_json d1 = Src.timestamp_to_json ⟨d1.instant, some 0⟩ := by
+  rw [(src_timestamp_json_form d1 h1).1, (src_timestamp_json_form d2 h2).1, hi]
+  refine ⟨rfl, ?_⟩
+  rw [(src_timestamp_json_form ⟨d2.instant, some 0⟩ rfl).1]
+  simp [DT.instant]
+
 /-- the model text is injective: two instants with the same JSON text are equal (what makes the
     abstract constructor `JVal.tsStr` of BpModel/Json.lean a faithful stand-in for the text) -/
 theorem ts_json_text_injective (a b : Int) (h : tsJsonText a = tsJsonText b) : a = b := by
@@ -159,5 +171,8 @@ example : (Src.duration_delta_to_json (-1500000)).bind (fun t => .ok (renderSecs
 example : Src.timestamp_to_json ⟨1500000, some 3600000000⟩ = .ok ⟨⟨-3599⟩, some (3, 500)⟩ := by decide
 example : Src.timestamp_to_json ⟨1000001, none⟩ = .ok ⟨⟨1⟩, some (6, 1)⟩ := by decide
 example : (⟨1500000, some 3600000000⟩ : DT).off.getD 0 % 1000000 = 0 := by decide
+/-- the hypotheses of `src_delta_from_json` / `src_delta_from_json_truncates` at a nanosecond text -/
+example : (0 : Nat) < 9 ∧ 999 < 10 ^ 9 ∧ (10 ^ 9 * 1 + 999) * 1000000 < 10 ^ 28 := by decide
+example : allDigits "007".toList = true ∧ allDigits "250".toList = true := by decide
 
 end Bp.C15
